@@ -19,13 +19,13 @@ var realStub = map[string]interface{}{
 func specs() map[string]*propSpec {
 	m := map[string]*propSpec{}
 	m["C09"] = &propSpec{id: "C09", engine: "E1-lru-simulator", level: "exploration",
-		rule: "seeded single-client histories of Store/Load/Delete/Len/Dump (1..2000 ops, 2..5 keys or 4c+8 keys, capacities 0..4, 5, 8, 16, swarm operation mixes) refined step by step against a reference LRU; a run is non-trivial when it had >=1 eviction and >=1 (re-store of a live key or load hit); distinct = distinct hash of (capacity, operation list, event log)",
-		assume: []string{"sampling, not enumeration: a clean batch is evidence, not proof", "the reference model (e1/model.go) is the specification of an LRU as stated in C09", "Dump text is not judged under C09"},
+		rule:     "seeded single-client histories of Store/Load/Delete/Len/Dump (1..2000 ops, 2..5 keys or 4c+8 keys, capacities 0..4, 5, 8, 16, swarm operation mixes) refined step by step against a reference LRU; a run is non-trivial when it had >=1 eviction and >=1 (re-store of a live key or load hit); distinct = distinct hash of (capacity, operation list, event log)",
+		assume:   []string{"sampling, not enumeration: a clean batch is evidence, not proof", "the reference model (e1/model.go) is the specification of an LRU as stated in C09", "Dump text is not judged under C09"},
 		quick:    budget{race: false, runs: 240000, maxWall: 25 * time.Second},
 		thorough: budget{race: false, runs: 60000000, maxWall: 8 * time.Minute}}
 	m["C10"] = &propSpec{id: "C10", engine: "E1-lru-simulator", level: "exploration",
-		rule: "seeded schedules of 2..4 clients x 2..6 ops (small: linearizability of the recorded history against the reference LRU, lock-grant order as witness, porcupine otherwise) and 4..16 clients x 50..500 ops (large: invariants), all under the race detector with the simulator's hand-offs hidden and the application's own lock/pool edges declared; a run is non-trivial when >=2 operations of different clients overlapped and >=1 entry was removed; distinct = distinct hash of (plan, event log)",
-		assume: []string{"sampling, not enumeration", "context switches happen at sync operations and between statements of valid/cache.go (P-yields, half of the runs); finer-grained interference is left to the race detector", "a race report is a verdict of Go's race detector on the simulated schedule"},
+		rule:     "seeded schedules of 2..4 clients x 2..6 ops (small: linearizability of the recorded history against the reference LRU, lock-grant order as witness, porcupine otherwise) and 4..16 clients x 50..500 ops (large: invariants), all under the race detector with the simulator's hand-offs hidden and the application's own lock/pool edges declared; a run is non-trivial when >=2 operations of different clients overlapped and >=1 entry was removed; distinct = distinct hash of (plan, event log)",
+		assume:   []string{"sampling, not enumeration", "context switches happen at sync operations and between statements of valid/cache.go (P-yields, half of the runs); finer-grained interference is left to the race detector", "a race report is a verdict of Go's race detector on the simulated schedule"},
 		quick:    budget{race: true, runs: 40000, maxWall: 35 * time.Second},
 		thorough: budget{race: true, runs: 8000000, maxWall: 10 * time.Minute}}
 	return m
@@ -43,16 +43,16 @@ type evidence struct {
 }
 
 func writeEvidence(ev *evidence) error {
-	os.MkdirAll(filepath.Join(verifDir, "evidence"), 0o755)
+	os.MkdirAll(filepath.Join(outDir(), "evidence"), 0o755)
 	b, err := json.MarshalIndent(ev, "", " ")
 	if err != nil {
 		return err
 	}
-	tmp := filepath.Join(verifDir, "evidence", ev.PropertyID+".json.tmp")
+	tmp := filepath.Join(outDir(), "evidence", ev.PropertyID+".json.tmp")
 	if err := os.WriteFile(tmp, b, 0o644); err != nil {
 		return err
 	}
-	return os.Rename(tmp, filepath.Join(verifDir, "evidence", ev.PropertyID+".json"))
+	return os.Rename(tmp, filepath.Join(outDir(), "evidence", ev.PropertyID+".json"))
 }
 
 func counterJSON(c detsim.Counter) map[string]int64 {
@@ -144,31 +144,31 @@ func runCheck(prop, tier string, seed uint64) int {
 		samples = append(samples, v)
 	}
 	cov := map[string]interface{}{
-		"evaluations":                       m.runs,
-		"distinct_nontrivial":               distinctNT,
-		"rule":                              spec.rule,
-		"samples":                           samples,
-		"exhaustive":                        false,
-		"nontrivial_runs":                   m.nontrivial,
+		"evaluations":                        m.runs,
+		"distinct_nontrivial":                distinctNT,
+		"rule":                               spec.rule,
+		"samples":                            samples,
+		"exhaustive":                         false,
+		"nontrivial_runs":                    m.nontrivial,
 		"nontrivial_distinct_is_lower_bound": m.nontrivOv > 0,
-		"simulated_runs":                    m.runs,
-		"scheduler_steps_total":             m.steps,
-		"simulated_time_note":               "the code under test has no clock; simulated time is reported as scheduler steps",
-		"runs_per_hour":                     int64(float64(m.runs) / wall * 3600),
-		"run_index_range":                   fmt.Sprintf("batch seed %d, run indices 0..%d split over %d worker processes (a worker stops early at its wall budget; 'evaluations' is what actually ran)", seed, b.runs, 16),
-		"distinct_interleavings":            len(m.inter),
-		"distinct_interleavings_measure":    "distinct hashes of the sequence of (task, operation kind) at context switches",
+		"simulated_runs":                     m.runs,
+		"scheduler_steps_total":              m.steps,
+		"simulated_time_note":                "the code under test has no clock; simulated time is reported as scheduler steps",
+		"runs_per_hour":                      int64(float64(m.runs) / wall * 3600),
+		"run_index_range":                    fmt.Sprintf("batch seed %d, run indices 0..%d split over %d worker processes (a worker stops early at its wall budget; 'evaluations' is what actually ran)", seed, b.runs, 16),
+		"distinct_interleavings":             len(m.inter),
+		"distinct_interleavings_measure":     "distinct hashes of the sequence of (task, operation kind) at context switches",
 		"distinct_interleavings_lower_bound": m.interOv > 0,
-		"distinct_model_states":             len(m.states),
-		"fault_kinds_fired":                 counterJSON(m.faults),
-		"probes":                            counterJSON(m.probes),
-		"counters":                          counterJSON(m.counters),
-		"inconclusive_runs":                 m.inconclusive,
-		"components":                        realStub,
-		"race_detector":                     b.race,
-		"repo_tree_hash":                    tree,
-		"build_s":                           buildS,
-		"event_log_xor":                     fmt.Sprintf("%016x", m.logXor),
+		"distinct_model_states":              len(m.states),
+		"fault_kinds_fired":                  counterJSON(m.faults),
+		"probes":                             counterJSON(m.probes),
+		"counters":                           counterJSON(m.counters),
+		"inconclusive_runs":                  m.inconclusive,
+		"components":                         realStub,
+		"race_detector":                      b.race,
+		"repo_tree_hash":                     tree,
+		"build_s":                            buildS,
+		"event_log_xor":                      fmt.Sprintf("%016x", m.logXor),
 	}
 	ev := &evidence{PropertyID: prop, Tier: tier, Seed: int64(seed), Level: spec.level, Coverage: cov, Assumptions: spec.assume, WallS: wall, Violations: nviol}
 	if err := writeEvidence(ev); err != nil {
